@@ -32,7 +32,7 @@ type kindW struct {
 // same id over and over (maximal contention on c.mu around the single-flight placeholder)
 var profiles = map[string][]kindW{
 	"mixed": {{"Get", 30}, {"Pick", 10}, {"Add", 8}, {"Remove", 12}, {"RemoveSame", 8}, {"TryRemove", 12}, {"GC", 8}},
-	"churn": {{"Get", 50}, {"Remove", 28}, {"TryRemove", 12}, {"GC", 6}, {"Pick", 4}},
+	"churn": {{"Get", 60}, {"Remove", 22}, {"TryRemove", 10}, {"GC", 4}, {"Pick", 4}},
 }
 
 func pickKind(rnd *rand.Rand, kindsW []kindW) string {
@@ -68,6 +68,10 @@ func recordRun(seed int64, slots, opsPerSlot int, ids []string, withClose bool, 
 	r.loadOutcomes = []string{"val", "val", "val", "val", "val", "err"}
 	r.tryVerdicts = []string{"yes", "no", "yes", "no", "yesErr", "noErr"}
 	kindsW := profiles[profile]
+	if profile == "churn" {
+		// failing loads keep the id absent, so that many lookups miss at the same time
+		r.loadOutcomes = []string{"val", "err", "err"}
+	}
 	var (
 		wg      sync.WaitGroup
 		opsMu   sync.Mutex
@@ -247,10 +251,14 @@ func TestRecord(t *testing.T) {
 		if rnd.Intn(4) == 0 {
 			ids = []string{"a"}
 		}
-		if k%3 == 2 {
+		if k%2 == 1 {
 			profile, ids, active = "churn", []string{"a"}, 8
 		}
-		rc := recordRun(seed*100000+int64(k), active, 12+rnd.Intn(24), ids, rnd.Intn(3) > 0, profile)
+		perSlot := 12 + rnd.Intn(24)
+		if profile == "churn" {
+			perSlot = 30 + rnd.Intn(30)
+		}
+		rc := recordRun(seed*100000+int64(k), active, perSlot, ids, rnd.Intn(3) > 0, profile)
 		w.Emit(map[string]any{"ev": "reset", "slots": slots, "run": k})
 		if len(rc.stuck) == 0 {
 			for _, e := range rc.events {
